@@ -3,7 +3,7 @@
    heavy-hitter rows are the C12_log_* / C12_hh_* theorems of their own models. *)
 From Coq Require Import ZArith List.
 From Sketchnu Require Import Machine Ngram NgramProofs CmsLinear CmsLinearProofs.
-From Sketchnu Require Hll HllProofs.
+From Sketchnu Require Hll HllProofs CmsLog CmsLogProofs HH HHProofs Consts.
 Import ListNotations.
 Open Scope Z_scope.
 
@@ -56,6 +56,40 @@ Proof.
          (conj HllProofs.cls_add_ngram_update (conj HllProofs.cls_update_ngram_update HllProofs.cls_add_value))).
 Qed.
 Print Assumptions C12_hll.
+
+(* ---- log8 / log16 ---- *)
+Theorem C12_log_mult : forall depth bucket nr umax powneg castc,
+  0 <= umax -> (forall x, 0 <= x <= umax -> castc x = x) ->
+  forall (s : CmsLog.lsk) (k : key) (v : Z), CmsLogProofs.lsk_ok umax s -> 0 <= v ->
+  CmsLogProofs.lsk_eq (CmsLog.lcls_add depth bucket nr umax powneg castc s k v)
+                      (CmsLogProofs.iter_add_log depth bucket nr umax powneg castc s k (Z.to_nat v)).
+Proof. exact CmsLogProofs.C12_log_mult. Qed.
+Print Assumptions C12_log_mult.
+
+Theorem C12_log_ngram : forall depth bucket nr umax powneg castc (s : CmsLog.lsk) (k : key) (n : Z),
+  1 <= n < 2^64 -> zlen k < 2^64 ->
+  CmsLog.ladd_ngram depth bucket nr umax powneg castc s k n =
+  fold_left (fun s0 w => CmsLog.lcls_add depth bucket nr umax powneg castc s0 w 1) (windows (Z.to_nat n) k) s.
+Proof. exact CmsLogProofs.C12_log_ngram. Qed.
+Print Assumptions C12_log_ngram.
+
+Theorem C12_log_update_list : forall depth bucket nr umax powneg castc (s : CmsLog.lsk) (ks : list key),
+  CmsLog.lupdate_list depth bucket nr umax powneg castc s ks =
+  fold_left (fun s0 k => CmsLog.lcls_add depth bucket nr umax powneg castc s0 k 1) ks s.
+Proof. exact CmsLogProofs.C12_log_update_list. Qed.
+Print Assumptions C12_log_update_list.
+
+(* ---- heavy hitters: add(key, v) = v unit adds, pointwise on tables and on every scalar field ---- *)
+Theorem C12_hh_mult : forall (width depth max_key_len : nat) (bucket : nat -> key -> nat) (default_thr : Z -> Z),
+  (forall r k, (bucket r k < width)%nat) -> (max_key_len <= 255)%nat ->
+  forall (h : HH.hist) (k : key) (v : Z), HH.wf h -> zlen k < 2^64 -> 0 <= v <= Consts.hh_cap ->
+  let s := HH.eval width depth max_key_len bucket default_thr h in
+  let s1 := HH.hh_add depth max_key_len bucket s k v in
+  let s2 := Nat.iter (Z.to_nat v) (HHProofs.hh_add1 depth max_key_len bucket k) s in
+  (forall r c, HH.tab s1 r c = HH.tab s2 r c) /\ HH.n_added s1 = HH.n_added s2 /\ HH.n_records s1 = HH.n_records s2 /\
+  HH.cand s1 = HH.cand s2 /\ HH.n_added_sort s1 = HH.n_added_sort s2 /\ HH.thr_sort s1 = HH.thr_sort s2.
+Proof. exact HHProofs.hh_add_mult_reachable. Qed.
+Print Assumptions C12_hh_mult.
 
 Example C12_nonvacuous :
   windows 2 [1;2;3;4] = [[1;2];[2;3];[3;4]] /\ windows 4 [1;2;3;4] = [[1;2;3;4]] /\ windows 9 [1] = [[1]] /\
